@@ -124,6 +124,10 @@ func genC02(seed uint64, run int, tier string) *Plan {
 					}
 				}
 				sub.DB, sub.C = "db", "c0"
+				if r.IntN(7) == 0 {
+					// a failing upsert into a collection that does not exist yet: the statement must not create it
+					sub = Op{K: "updateOne", DB: "db", C: "c9", F: jd(bson.D{{Key: "a", Value: int32(r.IntN(3))}}), U: jd(pick(r, bson.D{{Key: "$push", Value: bson.D{{Key: "a", Value: int32(1)}}}}, bson.D{{Key: "$bogus", Value: bson.D{{Key: "a", Value: int32(1)}}}})), Upsert: true}
+				}
 				if sub.K == "findOneAndUpdate" || sub.K == "findOneAndReplace" {
 					sub.Upsert = false // (the id an upsert generates is not reported by these calls)
 				}
